@@ -139,16 +139,35 @@ def sel_band(sc, g, p):
     return False
 
 
+# Which variant of edge_maps.py the code under test implements (C05's findings F1 / F23, which
+# have proposed repairs): decided in check() by running C05's corpus witnesses on the real code.
+PAF_FIXED = {"len": False, "box": False}
+
+
+def detect_paf_variants(run=None):
+    from . import c05
+    mods = c05.load_mods()
+    PAF_FIXED["len"] = c05.detect_fixed_len(mods)
+    PAF_FIXED["box"] = c05.detect_fixed_box(mods)
+    if run is not None:
+        run.notes.append(f"edge_maps.py variant detected on C05's witnesses: F1 repaired={PAF_FIXED['len']}, "
+                         f"F23 repaired={PAF_FIXED['box']}")
+
+
 def sel_paf_dropped(sc, g, animal):
     """F10 (writer side): generate_pafs keeps an animal only if some node lies strictly
     inside (0, xv[-1]) x (0, yv[-1]) where xv[-1], yv[-1] are the LAST PAF GRID SAMPLES;
-    an animal wholly in the right/bottom band beyond them gets no PAF at all."""
+    an animal wholly in the right/bottom band beyond them gets no PAF at all.
+    (Repaired filter, C05/F23: closed pixel rectangle [0, W-1] x [0, H-1].)"""
     ps = sc["ps"]
     xmax, ymax = (g["wp"] - 1) * ps, (g["hp"] - 1) * ps
     for p in animal:
         if visible(p):
             px, py = to_input(g, p)
-            if 0 < px < xmax and 0 < py < ymax:
+            if PAF_FIXED["box"]:
+                if 0 <= px <= g["Win"] - 1 and 0 <= py <= g["Hin"] - 1:
+                    return False
+            elif 0 < px < xmax and 0 < py < ymax:
                 return False
     return True
 
@@ -553,7 +572,7 @@ def ideal_paf(sc, g, animals, k, x, y):
         l2 = ex * ex + ey * ey
         if l2 == 0:
             continue
-        t = ((x - sx) * ex + (y - sy) * ey) / max(l2, 1.0)
+        t = ((x - sx) * ex + (y - sy) * ey) / (l2 if PAF_FIXED["len"] else max(l2, 1.0))
         t = min(max(t, 0.0), 1.0)
         d2 = (t * ex - (x - sx)) ** 2 + (t * ey - (y - sy)) ** 2
         w = math.exp(-(d2 * d2) / (2 * sig * sig))
@@ -814,7 +833,7 @@ def writer_check(im: Impl, rng):
     n_nodes = rng.randint(2, 4)
     edges = random_tree(rng, n_nodes)
     sc = {"edges": edges, "ps": s, "sigma_paf": rng.choice([F(3), F(15)]), "registration": "target"}
-    g = {"f": F(1), "off": F(0), "hp": -(-H // s), "wp": -(-W // s)}
+    g = {"f": F(1), "off": F(0), "hp": -(-H // s), "wp": -(-W // s), "Hin": H, "Win": W}
     animals = [[(dy(rng, 1, W - 2, 4), dy(rng, 1, H - 2, 4)) if rng.random() < 0.85 else None for _ in range(n_nodes)]
                for _ in range(rng.randint(1, 2))]
     pts = truth_tensor(torch, animals).unsqueeze(0)
@@ -979,11 +998,16 @@ def replay_corpus(run, im):
         n += 1
         if sel:
             got = scene_selectors(sc)
-            run.obligation(f"corpus witness {f.name} falls under its selector {sel}", got == sel, f"harness selector says {got}")
             bad = witness_fails(sc, res, sel)
             if bad:
-                run.violation("failing-input", {"case": scene_json(sc), "oracle": bad, "witness": f.name}, selector=sel)
+                # a witness that still fails must be covered by the selector it is filed under
+                # (if it is not, the violation below is reported without a selector, i.e. as a VIOLATION)
+                run.obligation(f"corpus witness {f.name} falls under its selector {sel}", got == sel, f"harness selector says {got}")
+                run.violation("failing-input", {"case": scene_json(sc), "oracle": bad, "witness": f.name},
+                              selector=sel if got == sel else None)
             else:
+                run.obligation(f"corpus witness {f.name}: the defect is gone, and the property holds on it",
+                               not oracle(sc, res) or got is not None, str(oracle(sc, res)))
                 run.notes.append(f"known-finding witness {f.name} ({sel}) no longer fails")
         else:                               # a minimised earlier failure: must pass now
             bad = oracle(sc, res)
@@ -996,6 +1020,7 @@ def replay_corpus(run, im):
 def check(run: core.Run) -> int:
     run.build_and_prove(PROP_FILES)
     im = Impl()
+    detect_paf_variants(run)
     rng = run.rng
     thorough = run.tier == "thorough"
 
@@ -1181,6 +1206,7 @@ def check(run: core.Run) -> int:
 
 def replay(run: core.Run, path: str) -> int:
     im = Impl()
+    detect_paf_variants()
     rep = json.load(open(path))
     sc = scene_from_json(rep["case"] if "case" in rep else rep["scene"])
     res = run_scene(im, sc)
